@@ -105,6 +105,8 @@ type GenLogon struct {
 	ExtraAttr  []uint32 `json:"extra_attr,omitempty"`
 	ResDomain  *GenSID  `json:"res_domain,omitempty"`
 	ResGroups  []uint32 `json:"res_groups,omitempty"`
+	NullEmpty  bool     `json:"null_empty,omitempty"` // empty strings as null Buffer pointers (the way Samba and MIT-based KDCs encode them) instead of pointers to zero elements
+	Slack      []int    `json:"slack,omitempty"`      // per name: MaximumLength exceeds Length by this many characters (conformance > variance)
 }
 
 func (g GenSID) sid() *pacfmt.SID { return pacfmt.NewSID(g.Auth, g.Subs...) }
@@ -132,6 +134,12 @@ func (g *GenLogon) encode() []byte {
 	li.LastSuccessfulILogon, li.LastFailedILogon = at(g.Times, 6), at(g.Times, 7)
 	for i, u := range []*pacfmt.UnicodeString{&li.EffectiveName, &li.FullName, &li.LogonScript, &li.ProfilePath, &li.HomeDirectory, &li.HomeDirectoryDrive, &li.LogonServer, &li.LogonDomainName} {
 		*u = pacfmt.NewUnicodeString(at(g.Names, i))
+		if g.NullEmpty && len(u.Chars) == 0 {
+			*u = pacfmt.UnicodeString{}
+		} else if k := at(g.Slack, i); k > 0 && int(u.MaximumLength)+2*k < 0x10000 {
+			u.MaximumLength += uint16(2 * k)
+			u.MaxCount += uint32(k)
+		}
 	}
 	li.LogonCount, li.BadPasswordCount = at(g.U16, 0), at(g.U16, 1)
 	li.UserID, li.PrimaryGroupID, li.UserFlags = at(g.U32, 0), at(g.U32, 1), at(g.U32, 2)&^0x220
@@ -901,6 +909,12 @@ func features(c Case, b *built) []string {
 			l = append(l, "declared:kdc")
 		case bf.Src == "gen:logon":
 			l = append(l, "logon:generated")
+			if bf.Gen != nil && bf.Gen.NullEmpty {
+				l = append(l, "logon:null-pointers-for-empty-strings")
+			}
+			if bf.Gen != nil && len(bf.Gen.Slack) > 0 {
+				l = append(l, "logon:MaximumLength>Length")
+			}
 			if bf.Gen != nil && bf.Gen.FillGroups > 400 {
 				l = append(l, "logon:over-4096-octets")
 			}
